@@ -1,7 +1,7 @@
 ------------------------------- MODULE MC_C11 -------------------------------
 (* Bounded model of the pattern operators (property C11).                                      *)
 (*  Mode "regex": every regex AST of the subset up to nesting Level over the byte alphabet     *)
-(*    {a, b, ", ], LF}; in-model: the quoted-source scanner (L2) inverts the documented        *)
+(*    {a, b, ", ], [, \, LF}; in-model: the quoted-source scanner (L2) inverts the documented        *)
 (*    quoting (L1): ScanQuoted(QuotedSource(p)) = p; one vector per AST and literal form with  *)
 (*    the expected result of `s matches <re>` on every value of the pool.                      *)
 (*  Mode "wild": every wildcard pattern of <= MaxLen bytes over {a, A, *, ?, \} x strict /     *)
@@ -20,7 +20,8 @@ Ctxs == Strict([i \in 1..Len(Pool) |-> [sch |-> 1, vals |-> <<VBytes(Pool[i])>>,
 
 Lit(c) == [k |-> "lit", c |-> c]
 Cls(neg, rs) == [k |-> "cls", neg |-> neg, rs |-> rs]
-Atoms == {Lit(97), Lit(98), Lit(34), Lit(93), [k |-> "any"],
+Atoms == {Lit(97), Lit(98), Lit(34), Lit(93), Lit(91), Lit(92), [k |-> "any"],
+          Cls(FALSE, <<[lo |-> 93, hi |-> 93], [lo |-> 34, hi |-> 34]>>),      \* [\]"] : a quote after an escaped bracket
           Cls(FALSE, <<[lo |-> 97, hi |-> 97]>>), Cls(TRUE, <<[lo |-> 97, hi |-> 97]>>),
           Cls(FALSE, <<[lo |-> 34, hi |-> 34], [lo |-> 93, hi |-> 93]>>), Cls(FALSE, <<[lo |-> 97, hi |-> 98]>>)}
 Wrap(x) == IF x.k = "alt" THEN [k |-> "grp", a |-> x] ELSE x
